@@ -34,6 +34,14 @@ func (e *Engine) registerIntrinsics() {
 		"(*sync.Map).CompareAndDelete": intrSyncMapUnsupported,
 		"(*sync.Map).Clear":            intrSyncMapUnsupported,
 		"(*sync.WaitGroup).Done":       intrWGDone,
+		// math/bits: table look-ups with a symbolic index in the real code
+		"math/bits.Len64":          intrBitsLen,
+		"math/bits.Len32":          intrBitsLen,
+		"math/bits.Len16":          intrBitsLen,
+		"math/bits.Len8":           intrBitsLen,
+		"math/bits.Len":            intrBitsLen,
+		"math/bits.LeadingZeros64": intrBitsLen,
+		"math/bits.LeadingZeros32": intrBitsLen,
 		"(*sync.WaitGroup).Wait":       intrWGWait,
 		// atomics
 		"sync/atomic.LoadInt32":             intrAtomicLoad,
@@ -719,4 +727,25 @@ func vSymString(c *icall) {
 // vConcrete forks over the feasible values of a symbolic int (at most 16).
 func vConcrete(c *icall) {
 	c.ret(BV(64, uint64(int64(c.e.concreteInt(c.w, c.st, c.g, c.fr, c.args[0], "vConcrete")))))
+}
+
+// intrBitsLen models math/bits.Len* / LeadingZeros*: the real code indexes a 256-entry table
+// with (part of) its argument; for a symbolic argument the result is the if-then-else chain
+// "number of the highest set bit + 1" (int, 64 bit).
+func intrBitsLen(c *icall) {
+	x, ok := c.args[0].(*Term)
+	if !ok {
+		unsupported(c.curPos(), "math/bits.%s on a non-integer value", c.fn.Name())
+	}
+	w := int(x.W)
+	res := BV(64, 0)
+	for i := 0; i < w; i++ {
+		// if x >= 2^i then at least i+1 (built from the lowest bit upwards, so the last
+		// satisfied condition wins)
+		res = Ite(CmpBV(OpBVUle, BV(x.W, uint64(1)<<uint(i)), x), BV(64, uint64(i+1)), res)
+	}
+	if strings.HasPrefix(c.fn.Name(), "LeadingZeros") {
+		res = BinBV(OpBVSub, BV(64, uint64(w)), res)
+	}
+	c.ret(res)
 }
